@@ -14,7 +14,8 @@ RULE = ("(completeness) literals over printable ASCII without quote / back-tick 
         "pattern inside the subject, JS flags: one node with the dialect's type and label covering exactly the expression whose value "
         "is the Python-level evaluation; (soundness) every node labelled concatenation / reverse / vba.reverse / replace / "
         "vba.replace met in any workload is re-evaluated from the text it replaced with a small literal parser (texts outside the "
-        "literal domain are counted, not judged). distinct_nontrivial = distinct inputs with a judged node / case.")
+        "literal domain are counted, not judged). Added after the blind seed rounds: any white-space character or run wherever the syntax has optional space, any run of white space / underscores around the operators, a 'big' shard (chains of up to 12000 literals, 140 kB literals), an earlier lone quote character in the text, expressions partially overlapped by a path, pairs of expressions in one text (not next to bare-operator literals). "
+        "distinct_nontrivial = distinct inputs with a judged node / case.")
 ASSUMPTIONS = ["backslash and back-tick are escape characters of the documented string syntax and lie outside 'no quote characters'",
                "empty results are expected to be absent (the engine drops empty values) and are re-drawn"]
 EXPECTED_WALL = {"quick": 50, "thorough": 400}
